@@ -217,28 +217,60 @@ func gFactories() (map[component.Type]receiver.Factory, map[component.Type]proce
 				return nil
 			}}, nil
 		}, st))
+	// the connectors are ROUTER-AWARE: whatever the number of pipelines they feed, the graph hands them the router of the
+	// destination signal, and they pick their destination(s) through it (all of them: the reference model forwards to all)
+	routeT := func(n consumer.Traces) (consumer.Traces, error) {
+		r, ok := n.(connector.TracesRouterAndConsumer)
+		if !ok {
+			return nil, fmt.Errorf("the consumer handed to the connector is a %T, not a connector.TracesRouterAndConsumer", n)
+		}
+		return r.Consumer(r.PipelineIDs()...)
+	}
+	routeL := func(n consumer.Logs) (consumer.Logs, error) {
+		r, ok := n.(connector.LogsRouterAndConsumer)
+		if !ok {
+			return nil, fmt.Errorf("the consumer handed to the connector is a %T, not a connector.LogsRouterAndConsumer", n)
+		}
+		return r.Consumer(r.PipelineIDs()...)
+	}
 	var copts []connector.FactoryOption
 	if gDirOK("traces", "traces") {
-		copts = append(copts, connector.WithTracesToTraces(func(_ context.Context, s connector.Settings, _ component.Config, n consumer.Traces) (connector.Traces, error) {
+		copts = append(copts, connector.WithTracesToTraces(func(_ context.Context, s connector.Settings, _ component.Config, n0 consumer.Traces) (connector.Traces, error) {
+			n, err := routeT(n0)
+			if err != nil {
+				return nil, err
+			}
 			return gTC{gMk("conn/traces>traces/" + s.ID.String()), func(ctx context.Context, td ptrace.Traces) error { return n.ConsumeTraces(ctx, gAddT(td, ">c")) }}, nil
 		}, st))
 	}
 	if gDirOK("traces", "logs") {
-		copts = append(copts, connector.WithTracesToLogs(func(_ context.Context, s connector.Settings, _ component.Config, n consumer.Logs) (connector.Traces, error) {
+		copts = append(copts, connector.WithTracesToLogs(func(_ context.Context, s connector.Settings, _ component.Config, n0 consumer.Logs) (connector.Traces, error) {
+			n, err := routeL(n0)
+			if err != nil {
+				return nil, err
+			}
 			return gTC{gMk("conn/traces>logs/" + s.ID.String()), func(ctx context.Context, td ptrace.Traces) error {
 				return n.ConsumeLogs(ctx, gAddL(plog.NewLogs(), gStampT(td)+">c"))
 			}}, nil
 		}, st))
 	}
 	if gDirOK("logs", "traces") {
-		copts = append(copts, connector.WithLogsToTraces(func(_ context.Context, s connector.Settings, _ component.Config, n consumer.Traces) (connector.Logs, error) {
+		copts = append(copts, connector.WithLogsToTraces(func(_ context.Context, s connector.Settings, _ component.Config, n0 consumer.Traces) (connector.Logs, error) {
+			n, err := routeT(n0)
+			if err != nil {
+				return nil, err
+			}
 			return gLC{gMk("conn/logs>traces/" + s.ID.String()), func(ctx context.Context, ld plog.Logs) error {
 				return n.ConsumeTraces(ctx, gAddT(ptrace.NewTraces(), gStampL(ld)+">c"))
 			}}, nil
 		}, st))
 	}
 	if gDirOK("logs", "logs") {
-		copts = append(copts, connector.WithLogsToLogs(func(_ context.Context, s connector.Settings, _ component.Config, n consumer.Logs) (connector.Logs, error) {
+		copts = append(copts, connector.WithLogsToLogs(func(_ context.Context, s connector.Settings, _ component.Config, n0 consumer.Logs) (connector.Logs, error) {
+			n, err := routeL(n0)
+			if err != nil {
+				return nil, err
+			}
 			return gLC{gMk("conn/logs>logs/" + s.ID.String()), func(ctx context.Context, ld plog.Logs) error { return n.ConsumeLogs(ctx, gAddL(ld, ">c")) }}, nil
 		}, st))
 	}
